@@ -200,19 +200,73 @@ begin
  M9: return;
 end procedure;
 
-\* parseEmbeddedCode: "{{" expression "}}"
+\* parseEmbeddedCode ("{{", ";" or the "(" of @for already current): assignment or expression statement
 procedure parseEmbedded()
 begin
  X0: i := i + 1;
-     if Tok(i) = "RBRACES" then err("empty braces"); return; end if;
+ X0a: if Tok(i) = "RBRACES" then err("empty braces"); return; end if;
+ X0b: if Tok(i) = "IDENT" /\ Tok(i + 1) = "ASSIGN" then
+       i := i + 2;
+ X0c:  if Tok(i) = "RBRACES" then err("expected expression"); return; end if;
+ X0d:  call parseExpr();
+       return;
+     end if;
  X1: call parseExpr();
  X2: if Tok(i + 1) = "RBRACES" then i := i + 1; end if;
  X3: return;
 end procedure;
 
+\* parseForStmt: @for( [init] ; [cond] ; [post] ) block [@else block] @end
+procedure parseFor()
+begin
+ F0: if Tok(i + 1) # "LPAREN" then err("expected ("); return; end if;
+ F1: i := i + 1;
+ F1a: if Tok(i + 1) # "SEMI" then call parseEmbedded(); end if;
+ F2: if Tok(i + 1) # "SEMI" then err("expected ;"); return; end if;
+ F3: i := i + 1;
+ F3a: if Tok(i + 1) # "SEMI" then
+        i := i + 1;
+        call parseExpr();
+      end if;
+ F4: if Tok(i + 1) # "SEMI" then err("expected ;"); return; end if;
+ F5: i := i + 1;
+ F5a: if Tok(i + 1) # "RPAREN" then call parseEmbedded(); end if;
+ F6: if Tok(i + 1) # "RPAREN" then err("expected )"); return; end if;
+ F7: i := i + 2;
+     call parseBlock();
+ F8: if Tok(i + 1) = "ELSE" then
+       i := i + 2;
+       call parseBlock();
+     end if;
+ F9: if Tok(i + 1) = "END" then i := i + 1; else err("expected @end"); end if;
+ FA: return;
+end procedure;
+
+\* parseBreakIfStmt / parseContinueIfStmt, parseUseStmt / parseReserveStmt, parseDumpStmt
+procedure parseArgDirective(kind)
+begin
+ D0: if Tok(i + 1) # "LPAREN" then err("expected ("); return; end if;
+ D1: if kind = "dump" then
+       i := i + 1;
+       call parseList("RPAREN");
+       return;
+     elsif kind = "cond" then
+       i := i + 2;
+       call parseExpr();
+       return;
+     else
+       i := i + 2;                       \* the name token is taken as it is
+     end if;
+ D2: return;
+end procedure;
+
 procedure parseStatement()
 begin
- S0: if Tok(i) = "LBRACES" then call parseEmbedded();
+ S0: if Tok(i) \in {"LBRACES", "SEMI"} then call parseEmbedded();
+     elsif Tok(i) = "FOR" then call parseFor();
+     elsif Tok(i) \in {"BREAK_IF", "CONTINUE_IF"} then call parseArgDirective("cond");
+     elsif Tok(i) \in {"USE", "RESERVE"} then call parseArgDirective("name");
+     elsif Tok(i) = "DUMP" then call parseArgDirective("dump");
      elsif Tok(i) = "IF" then call parseIf();
      elsif Tok(i) = "EACH" then call parseEach();
      elsif Tok(i) = "INSERT" then call parseInsert();
@@ -239,9 +293,9 @@ VARIABLES pc, inp, toks, i, errs, nilp, stack
 Tok(k) == IF k >= 1 /\ k <= Len(toks) THEN toks[k] ELSE "EOF"
 Closers == {"END", "ELSE", "ELSE_IF"}
 
-VARIABLE closer
+VARIABLES closer, kind
 
-vars == << pc, inp, toks, i, errs, nilp, stack, closer >>
+vars == << pc, inp, toks, i, errs, nilp, stack, closer, kind >>
 
 Init == (* Global variables *)
         /\ inp \in Inputs
@@ -251,6 +305,8 @@ Init == (* Global variables *)
         /\ nilp = FALSE
         (* Procedure parseList *)
         /\ closer = defaultInitValue
+        (* Procedure parseArgDirective *)
+        /\ kind = defaultInitValue
         /\ stack = << >>
         /\ pc = "P0"
 
@@ -285,7 +341,7 @@ E0 == /\ pc = "E0"
                                                   /\ stack' = Tail(stack)
                                        /\ UNCHANGED closer
                             /\ i' = i
-      /\ UNCHANGED << inp, toks, nilp >>
+      /\ UNCHANGED << inp, toks, nilp, kind >>
 
 E1 == /\ pc = "E1"
       /\ IF Tok(i + 1) = "RPAREN"
@@ -296,7 +352,7 @@ E1 == /\ pc = "E1"
                  /\ pc' = Head(stack).pc
                  /\ stack' = Tail(stack)
                  /\ i' = i
-      /\ UNCHANGED << inp, toks, nilp, closer >>
+      /\ UNCHANGED << inp, toks, nilp, closer, kind >>
 
 E2 == /\ pc = "E2"
       /\ IF Tok(i + 1) = "ADD"
@@ -309,19 +365,19 @@ E2 == /\ pc = "E2"
                             /\ UNCHANGED << errs, stack >>
             ELSE /\ pc' = "E4"
                  /\ UNCHANGED << i, errs, stack >>
-      /\ UNCHANGED << inp, toks, nilp, closer >>
+      /\ UNCHANGED << inp, toks, nilp, closer, kind >>
 
 E3 == /\ pc = "E3"
       /\ stack' = << [ procedure |->  "parseExpr",
                        pc        |->  "E2" ] >>
                    \o stack
       /\ pc' = "E0"
-      /\ UNCHANGED << inp, toks, i, errs, nilp, closer >>
+      /\ UNCHANGED << inp, toks, i, errs, nilp, closer, kind >>
 
 E4 == /\ pc = "E4"
       /\ pc' = Head(stack).pc
       /\ stack' = Tail(stack)
-      /\ UNCHANGED << inp, toks, i, errs, nilp, closer >>
+      /\ UNCHANGED << inp, toks, i, errs, nilp, closer, kind >>
 
 parseExpr == E0 \/ E1 \/ E2 \/ E3 \/ E4
 
@@ -333,7 +389,7 @@ L0 == /\ pc = "L0"
                  /\ stack' = Tail(stack)
             ELSE /\ pc' = "L1"
                  /\ UNCHANGED << i, stack, closer >>
-      /\ UNCHANGED << inp, toks, errs, nilp >>
+      /\ UNCHANGED << inp, toks, errs, nilp, kind >>
 
 L1 == /\ pc = "L1"
       /\ i' = i + 1
@@ -341,7 +397,7 @@ L1 == /\ pc = "L1"
                        pc        |->  "L2" ] >>
                    \o stack
       /\ pc' = "E0"
-      /\ UNCHANGED << inp, toks, errs, nilp, closer >>
+      /\ UNCHANGED << inp, toks, errs, nilp, closer, kind >>
 
 L2 == /\ pc = "L2"
       /\ IF Tok(i + 1) = "COMMA"
@@ -351,7 +407,7 @@ L2 == /\ pc = "L2"
                        ELSE /\ pc' = "L3"
             ELSE /\ pc' = "L4"
                  /\ i' = i
-      /\ UNCHANGED << inp, toks, errs, nilp, stack, closer >>
+      /\ UNCHANGED << inp, toks, errs, nilp, stack, closer, kind >>
 
 L3 == /\ pc = "L3"
       /\ i' = i + 1
@@ -359,7 +415,7 @@ L3 == /\ pc = "L3"
                        pc        |->  "L2" ] >>
                    \o stack
       /\ pc' = "E0"
-      /\ UNCHANGED << inp, toks, errs, nilp, closer >>
+      /\ UNCHANGED << inp, toks, errs, nilp, closer, kind >>
 
 L4 == /\ pc = "L4"
       /\ IF Tok(i + 1) = closer
@@ -368,13 +424,13 @@ L4 == /\ pc = "L4"
             ELSE /\ errs' = Append(errs, "expected closer")
                  /\ i' = i
       /\ pc' = "L5"
-      /\ UNCHANGED << inp, toks, nilp, stack, closer >>
+      /\ UNCHANGED << inp, toks, nilp, stack, closer, kind >>
 
 L5 == /\ pc = "L5"
       /\ pc' = Head(stack).pc
       /\ closer' = Head(stack).closer
       /\ stack' = Tail(stack)
-      /\ UNCHANGED << inp, toks, i, errs, nilp >>
+      /\ UNCHANGED << inp, toks, i, errs, nilp, kind >>
 
 parseList == L0 \/ L1 \/ L2 \/ L3 \/ L4 \/ L5
 
@@ -385,7 +441,7 @@ O0 == /\ pc = "O0"
                  /\ stack' = Tail(stack)
             ELSE /\ pc' = "O1"
                  /\ stack' = stack
-      /\ UNCHANGED << inp, toks, errs, nilp, closer >>
+      /\ UNCHANGED << inp, toks, errs, nilp, closer, kind >>
 
 O1 == /\ pc = "O1"
       /\ IF Tok(i) # "RBRACE"
@@ -396,14 +452,14 @@ O1 == /\ pc = "O1"
                  /\ pc' = "O2"
             ELSE /\ pc' = "O4"
                  /\ i' = i
-      /\ UNCHANGED << inp, toks, errs, nilp, stack, closer >>
+      /\ UNCHANGED << inp, toks, errs, nilp, stack, closer, kind >>
 
 O2 == /\ pc = "O2"
       /\ stack' = << [ procedure |->  "parseExpr",
                        pc        |->  "O3" ] >>
                    \o stack
       /\ pc' = "E0"
-      /\ UNCHANGED << inp, toks, i, errs, nilp, closer >>
+      /\ UNCHANGED << inp, toks, i, errs, nilp, closer, kind >>
 
 O3 == /\ pc = "O3"
       /\ IF Tok(i + 1) = "COMMA"
@@ -425,12 +481,12 @@ O3 == /\ pc = "O3"
                                        /\ i' = i
                             /\ pc' = Head(stack).pc
                             /\ stack' = Tail(stack)
-      /\ UNCHANGED << inp, toks, nilp, closer >>
+      /\ UNCHANGED << inp, toks, nilp, closer, kind >>
 
 O4 == /\ pc = "O4"
       /\ pc' = Head(stack).pc
       /\ stack' = Tail(stack)
-      /\ UNCHANGED << inp, toks, i, errs, nilp, closer >>
+      /\ UNCHANGED << inp, toks, i, errs, nilp, closer, kind >>
 
 parseObject == O0 \/ O1 \/ O2 \/ O3 \/ O4
 
@@ -441,7 +497,7 @@ B0 == /\ pc = "B0"
                  /\ stack' = Tail(stack)
             ELSE /\ pc' = "B1"
                  /\ UNCHANGED << i, stack >>
-      /\ UNCHANGED << inp, toks, errs, nilp, closer >>
+      /\ UNCHANGED << inp, toks, errs, nilp, closer, kind >>
 
 B1 == /\ pc = "B1"
       /\ IF Tok(i) # "END" /\ (Tok(i) # "EOF" \/ DevP2.BlockIgnoresEOF)
@@ -451,7 +507,7 @@ B1 == /\ pc = "B1"
                  /\ pc' = "S0"
             ELSE /\ pc' = "B5"
                  /\ stack' = stack
-      /\ UNCHANGED << inp, toks, i, errs, nilp, closer >>
+      /\ UNCHANGED << inp, toks, i, errs, nilp, closer, kind >>
 
 B2 == /\ pc = "B2"
       /\ IF Tok(i) = "ILLEGAL"
@@ -460,18 +516,18 @@ B2 == /\ pc = "B2"
                  /\ stack' = Tail(stack)
             ELSE /\ pc' = "B3"
                  /\ UNCHANGED << errs, stack >>
-      /\ UNCHANGED << inp, toks, i, nilp, closer >>
+      /\ UNCHANGED << inp, toks, i, nilp, closer, kind >>
 
 B3 == /\ pc = "B3"
       /\ IF Tok(i + 1) \in Closers
             THEN /\ pc' = "B5"
             ELSE /\ pc' = "B4"
-      /\ UNCHANGED << inp, toks, i, errs, nilp, stack, closer >>
+      /\ UNCHANGED << inp, toks, i, errs, nilp, stack, closer, kind >>
 
 B4 == /\ pc = "B4"
       /\ i' = i + 1
       /\ pc' = "B1"
-      /\ UNCHANGED << inp, toks, errs, nilp, stack, closer >>
+      /\ UNCHANGED << inp, toks, errs, nilp, stack, closer, kind >>
 
 B5 == /\ pc = "B5"
       /\ IF Tok(i) = "EOF"
@@ -479,12 +535,12 @@ B5 == /\ pc = "B5"
             ELSE /\ TRUE
                  /\ errs' = errs
       /\ pc' = "B6"
-      /\ UNCHANGED << inp, toks, i, nilp, stack, closer >>
+      /\ UNCHANGED << inp, toks, i, nilp, stack, closer, kind >>
 
 B6 == /\ pc = "B6"
       /\ pc' = Head(stack).pc
       /\ stack' = Tail(stack)
-      /\ UNCHANGED << inp, toks, i, errs, nilp, closer >>
+      /\ UNCHANGED << inp, toks, i, errs, nilp, closer, kind >>
 
 parseBlock == B0 \/ B1 \/ B2 \/ B3 \/ B4 \/ B5 \/ B6
 
@@ -495,7 +551,7 @@ I0 == /\ pc = "I0"
                  /\ stack' = Tail(stack)
             ELSE /\ pc' = "I1"
                  /\ UNCHANGED << errs, stack >>
-      /\ UNCHANGED << inp, toks, i, nilp, closer >>
+      /\ UNCHANGED << inp, toks, i, nilp, closer, kind >>
 
 I1 == /\ pc = "I1"
       /\ i' = i + 2
@@ -503,7 +559,7 @@ I1 == /\ pc = "I1"
                        pc        |->  "I2" ] >>
                    \o stack
       /\ pc' = "E0"
-      /\ UNCHANGED << inp, toks, errs, nilp, closer >>
+      /\ UNCHANGED << inp, toks, errs, nilp, closer, kind >>
 
 I2 == /\ pc = "I2"
       /\ IF Tok(i + 1) # "RPAREN"
@@ -512,7 +568,7 @@ I2 == /\ pc = "I2"
                  /\ stack' = Tail(stack)
             ELSE /\ pc' = "I3"
                  /\ UNCHANGED << errs, stack >>
-      /\ UNCHANGED << inp, toks, i, nilp, closer >>
+      /\ UNCHANGED << inp, toks, i, nilp, closer, kind >>
 
 I3 == /\ pc = "I3"
       /\ i' = i + 2
@@ -520,7 +576,7 @@ I3 == /\ pc = "I3"
                        pc        |->  "I4" ] >>
                    \o stack
       /\ pc' = "B0"
-      /\ UNCHANGED << inp, toks, errs, nilp, closer >>
+      /\ UNCHANGED << inp, toks, errs, nilp, closer, kind >>
 
 I4 == /\ pc = "I4"
       /\ IF Tok(i + 1) = "ELSE_IF"
@@ -531,7 +587,7 @@ I4 == /\ pc = "I4"
                  /\ pc' = "E0"
             ELSE /\ pc' = "I7"
                  /\ UNCHANGED << i, stack >>
-      /\ UNCHANGED << inp, toks, errs, nilp, closer >>
+      /\ UNCHANGED << inp, toks, errs, nilp, closer, kind >>
 
 I5 == /\ pc = "I5"
       /\ IF Tok(i + 1) # "RPAREN"
@@ -540,7 +596,7 @@ I5 == /\ pc = "I5"
                  /\ stack' = Tail(stack)
             ELSE /\ pc' = "I6"
                  /\ UNCHANGED << errs, stack >>
-      /\ UNCHANGED << inp, toks, i, nilp, closer >>
+      /\ UNCHANGED << inp, toks, i, nilp, closer, kind >>
 
 I6 == /\ pc = "I6"
       /\ i' = i + 2
@@ -548,7 +604,7 @@ I6 == /\ pc = "I6"
                        pc        |->  "I4" ] >>
                    \o stack
       /\ pc' = "B0"
-      /\ UNCHANGED << inp, toks, errs, nilp, closer >>
+      /\ UNCHANGED << inp, toks, errs, nilp, closer, kind >>
 
 I7 == /\ pc = "I7"
       /\ IF Tok(i + 1) = "ELSE"
@@ -559,7 +615,7 @@ I7 == /\ pc = "I7"
                  /\ pc' = "B0"
             ELSE /\ pc' = "I9"
                  /\ UNCHANGED << i, stack >>
-      /\ UNCHANGED << inp, toks, errs, nilp, closer >>
+      /\ UNCHANGED << inp, toks, errs, nilp, closer, kind >>
 
 I8 == /\ pc = "I8"
       /\ IF Tok(i + 1) = "ELSE_IF"
@@ -568,7 +624,7 @@ I8 == /\ pc = "I8"
                  /\ stack' = Tail(stack)
             ELSE /\ pc' = "I9"
                  /\ UNCHANGED << errs, stack >>
-      /\ UNCHANGED << inp, toks, i, nilp, closer >>
+      /\ UNCHANGED << inp, toks, i, nilp, closer, kind >>
 
 I9 == /\ pc = "I9"
       /\ IF Tok(i + 1) = "END"
@@ -577,12 +633,12 @@ I9 == /\ pc = "I9"
             ELSE /\ errs' = Append(errs, "expected @end")
                  /\ i' = i
       /\ pc' = "IA"
-      /\ UNCHANGED << inp, toks, nilp, stack, closer >>
+      /\ UNCHANGED << inp, toks, nilp, stack, closer, kind >>
 
 IA == /\ pc = "IA"
       /\ pc' = Head(stack).pc
       /\ stack' = Tail(stack)
-      /\ UNCHANGED << inp, toks, i, errs, nilp, closer >>
+      /\ UNCHANGED << inp, toks, i, errs, nilp, closer, kind >>
 
 parseIf == I0 \/ I1 \/ I2 \/ I3 \/ I4 \/ I5 \/ I6 \/ I7 \/ I8 \/ I9 \/ IA
 
@@ -593,7 +649,7 @@ C0 == /\ pc = "C0"
                  /\ stack' = Tail(stack)
             ELSE /\ pc' = "C1"
                  /\ UNCHANGED << errs, stack >>
-      /\ UNCHANGED << inp, toks, i, nilp, closer >>
+      /\ UNCHANGED << inp, toks, i, nilp, closer, kind >>
 
 C1 == /\ pc = "C1"
       /\ i' = i + 2
@@ -603,7 +659,7 @@ C1 == /\ pc = "C1"
                  /\ stack' = Tail(stack)
             ELSE /\ pc' = "C2"
                  /\ UNCHANGED << errs, stack >>
-      /\ UNCHANGED << inp, toks, nilp, closer >>
+      /\ UNCHANGED << inp, toks, nilp, closer, kind >>
 
 C2 == /\ pc = "C2"
       /\ i' = i + 2
@@ -611,7 +667,7 @@ C2 == /\ pc = "C2"
                        pc        |->  "C3" ] >>
                    \o stack
       /\ pc' = "E0"
-      /\ UNCHANGED << inp, toks, errs, nilp, closer >>
+      /\ UNCHANGED << inp, toks, errs, nilp, closer, kind >>
 
 C3 == /\ pc = "C3"
       /\ IF Tok(i + 1) # "RPAREN"
@@ -620,7 +676,7 @@ C3 == /\ pc = "C3"
                  /\ stack' = Tail(stack)
             ELSE /\ pc' = "C4"
                  /\ UNCHANGED << errs, stack >>
-      /\ UNCHANGED << inp, toks, i, nilp, closer >>
+      /\ UNCHANGED << inp, toks, i, nilp, closer, kind >>
 
 C4 == /\ pc = "C4"
       /\ i' = i + 2
@@ -628,7 +684,7 @@ C4 == /\ pc = "C4"
                        pc        |->  "C5" ] >>
                    \o stack
       /\ pc' = "B0"
-      /\ UNCHANGED << inp, toks, errs, nilp, closer >>
+      /\ UNCHANGED << inp, toks, errs, nilp, closer, kind >>
 
 C5 == /\ pc = "C5"
       /\ IF Tok(i + 1) = "ELSE"
@@ -639,7 +695,7 @@ C5 == /\ pc = "C5"
                  /\ pc' = "B0"
             ELSE /\ pc' = "C6"
                  /\ UNCHANGED << i, stack >>
-      /\ UNCHANGED << inp, toks, errs, nilp, closer >>
+      /\ UNCHANGED << inp, toks, errs, nilp, closer, kind >>
 
 C6 == /\ pc = "C6"
       /\ IF Tok(i + 1) = "END"
@@ -648,12 +704,12 @@ C6 == /\ pc = "C6"
             ELSE /\ errs' = Append(errs, "expected @end")
                  /\ i' = i
       /\ pc' = "C7"
-      /\ UNCHANGED << inp, toks, nilp, stack, closer >>
+      /\ UNCHANGED << inp, toks, nilp, stack, closer, kind >>
 
 C7 == /\ pc = "C7"
       /\ pc' = Head(stack).pc
       /\ stack' = Tail(stack)
-      /\ UNCHANGED << inp, toks, i, errs, nilp, closer >>
+      /\ UNCHANGED << inp, toks, i, errs, nilp, closer, kind >>
 
 parseEach == C0 \/ C1 \/ C2 \/ C3 \/ C4 \/ C5 \/ C6 \/ C7
 
@@ -664,12 +720,12 @@ N0 == /\ pc = "N0"
                  /\ stack' = Tail(stack)
             ELSE /\ pc' = "N1"
                  /\ UNCHANGED << errs, stack >>
-      /\ UNCHANGED << inp, toks, i, nilp, closer >>
+      /\ UNCHANGED << inp, toks, i, nilp, closer, kind >>
 
 N1 == /\ pc = "N1"
       /\ i' = i + 2
       /\ pc' = "N1a"
-      /\ UNCHANGED << inp, toks, errs, nilp, stack, closer >>
+      /\ UNCHANGED << inp, toks, errs, nilp, stack, closer, kind >>
 
 N1a == /\ pc = "N1a"
        /\ IF Tok(i + 1) = "COMMA"
@@ -680,7 +736,7 @@ N1a == /\ pc = "N1a"
                   /\ pc' = "E0"
              ELSE /\ pc' = "N2"
                   /\ UNCHANGED << i, stack >>
-       /\ UNCHANGED << inp, toks, errs, nilp, closer >>
+       /\ UNCHANGED << inp, toks, errs, nilp, closer, kind >>
 
 N2 == /\ pc = "N2"
       /\ IF Tok(i + 1) # "RPAREN"
@@ -689,7 +745,7 @@ N2 == /\ pc = "N2"
                  /\ stack' = Tail(stack)
             ELSE /\ pc' = "N3"
                  /\ UNCHANGED << errs, stack >>
-      /\ UNCHANGED << inp, toks, i, nilp, closer >>
+      /\ UNCHANGED << inp, toks, i, nilp, closer, kind >>
 
 N3 == /\ pc = "N3"
       /\ i' = i + 2
@@ -697,12 +753,12 @@ N3 == /\ pc = "N3"
                        pc        |->  "N4" ] >>
                    \o stack
       /\ pc' = "B0"
-      /\ UNCHANGED << inp, toks, errs, nilp, closer >>
+      /\ UNCHANGED << inp, toks, errs, nilp, closer, kind >>
 
 N4 == /\ pc = "N4"
       /\ pc' = Head(stack).pc
       /\ stack' = Tail(stack)
-      /\ UNCHANGED << inp, toks, i, errs, nilp, closer >>
+      /\ UNCHANGED << inp, toks, i, errs, nilp, closer, kind >>
 
 parseInsert == N0 \/ N1 \/ N1a \/ N2 \/ N3 \/ N4
 
@@ -713,12 +769,12 @@ M0 == /\ pc = "M0"
                  /\ stack' = Tail(stack)
             ELSE /\ pc' = "M1"
                  /\ UNCHANGED << errs, stack >>
-      /\ UNCHANGED << inp, toks, i, nilp, closer >>
+      /\ UNCHANGED << inp, toks, i, nilp, closer, kind >>
 
 M1 == /\ pc = "M1"
       /\ i' = i + 2
       /\ pc' = "M1a"
-      /\ UNCHANGED << inp, toks, errs, nilp, stack, closer >>
+      /\ UNCHANGED << inp, toks, errs, nilp, stack, closer, kind >>
 
 M1a == /\ pc = "M1a"
        /\ IF Tok(i + 1) = "COMMA"
@@ -729,7 +785,7 @@ M1a == /\ pc = "M1a"
                   /\ pc' = "E0"
              ELSE /\ pc' = "M2"
                   /\ UNCHANGED << i, stack >>
-       /\ UNCHANGED << inp, toks, errs, nilp, closer >>
+       /\ UNCHANGED << inp, toks, errs, nilp, closer, kind >>
 
 M2 == /\ pc = "M2"
       /\ IF Tok(i + 1) # "RPAREN"
@@ -738,12 +794,12 @@ M2 == /\ pc = "M2"
                  /\ stack' = Tail(stack)
             ELSE /\ pc' = "M3"
                  /\ UNCHANGED << errs, stack >>
-      /\ UNCHANGED << inp, toks, i, nilp, closer >>
+      /\ UNCHANGED << inp, toks, i, nilp, closer, kind >>
 
 M3 == /\ pc = "M3"
       /\ i' = i + 1
       /\ pc' = "M3a"
-      /\ UNCHANGED << inp, toks, errs, nilp, stack, closer >>
+      /\ UNCHANGED << inp, toks, errs, nilp, stack, closer, kind >>
 
 M3a == /\ pc = "M3a"
        /\ IF Tok(i + 1) = "SLOT"
@@ -753,7 +809,7 @@ M3a == /\ pc = "M3a"
              ELSE /\ pc' = Head(stack).pc
                   /\ stack' = Tail(stack)
                   /\ i' = i
-       /\ UNCHANGED << inp, toks, errs, nilp, closer >>
+       /\ UNCHANGED << inp, toks, errs, nilp, closer, kind >>
 
 M4 == /\ pc = "M4"
       /\ IF Tok(i) = "SLOT"
@@ -769,19 +825,19 @@ M4 == /\ pc = "M4"
                             /\ UNCHANGED << i, errs, stack >>
             ELSE /\ pc' = "M9"
                  /\ UNCHANGED << i, errs, stack >>
-      /\ UNCHANGED << inp, toks, nilp, closer >>
+      /\ UNCHANGED << inp, toks, nilp, closer, kind >>
 
 M6 == /\ pc = "M6"
       /\ stack' = << [ procedure |->  "parseBlock",
                        pc        |->  "M7" ] >>
                    \o stack
       /\ pc' = "B0"
-      /\ UNCHANGED << inp, toks, i, errs, nilp, closer >>
+      /\ UNCHANGED << inp, toks, i, errs, nilp, closer, kind >>
 
 M7 == /\ pc = "M7"
       /\ i' = i + 2
       /\ pc' = "M8"
-      /\ UNCHANGED << inp, toks, errs, nilp, stack, closer >>
+      /\ UNCHANGED << inp, toks, errs, nilp, stack, closer, kind >>
 
 M8 == /\ pc = "M8"
       /\ IF Tok(i) = "HTML"
@@ -789,37 +845,65 @@ M8 == /\ pc = "M8"
                  /\ pc' = "M8"
             ELSE /\ pc' = "M4"
                  /\ i' = i
-      /\ UNCHANGED << inp, toks, errs, nilp, stack, closer >>
+      /\ UNCHANGED << inp, toks, errs, nilp, stack, closer, kind >>
 
 M5 == /\ pc = "M5"
       /\ i' = i + 2
       /\ pc' = "M6"
-      /\ UNCHANGED << inp, toks, errs, nilp, stack, closer >>
+      /\ UNCHANGED << inp, toks, errs, nilp, stack, closer, kind >>
 
 M9 == /\ pc = "M9"
       /\ pc' = Head(stack).pc
       /\ stack' = Tail(stack)
-      /\ UNCHANGED << inp, toks, i, errs, nilp, closer >>
+      /\ UNCHANGED << inp, toks, i, errs, nilp, closer, kind >>
 
 parseComponent == M0 \/ M1 \/ M1a \/ M2 \/ M3 \/ M3a \/ M4 \/ M6 \/ M7
                      \/ M8 \/ M5 \/ M9
 
 X0 == /\ pc = "X0"
       /\ i' = i + 1
-      /\ IF Tok(i') = "RBRACES"
-            THEN /\ errs' = Append(errs, "empty braces")
-                 /\ pc' = Head(stack).pc
-                 /\ stack' = Tail(stack)
-            ELSE /\ pc' = "X1"
-                 /\ UNCHANGED << errs, stack >>
-      /\ UNCHANGED << inp, toks, nilp, closer >>
+      /\ pc' = "X0a"
+      /\ UNCHANGED << inp, toks, errs, nilp, stack, closer, kind >>
+
+X0a == /\ pc = "X0a"
+       /\ IF Tok(i) = "RBRACES"
+             THEN /\ errs' = Append(errs, "empty braces")
+                  /\ pc' = Head(stack).pc
+                  /\ stack' = Tail(stack)
+             ELSE /\ pc' = "X0b"
+                  /\ UNCHANGED << errs, stack >>
+       /\ UNCHANGED << inp, toks, i, nilp, closer, kind >>
+
+X0b == /\ pc = "X0b"
+       /\ IF Tok(i) = "IDENT" /\ Tok(i + 1) = "ASSIGN"
+             THEN /\ i' = i + 2
+                  /\ pc' = "X0c"
+             ELSE /\ pc' = "X1"
+                  /\ i' = i
+       /\ UNCHANGED << inp, toks, errs, nilp, stack, closer, kind >>
+
+X0c == /\ pc = "X0c"
+       /\ IF Tok(i) = "RBRACES"
+             THEN /\ errs' = Append(errs, "expected expression")
+                  /\ pc' = Head(stack).pc
+                  /\ stack' = Tail(stack)
+             ELSE /\ pc' = "X0d"
+                  /\ UNCHANGED << errs, stack >>
+       /\ UNCHANGED << inp, toks, i, nilp, closer, kind >>
+
+X0d == /\ pc = "X0d"
+       /\ stack' = << [ procedure |->  "parseExpr",
+                        pc        |->  Head(stack).pc ] >>
+                    \o Tail(stack)
+       /\ pc' = "E0"
+       /\ UNCHANGED << inp, toks, i, errs, nilp, closer, kind >>
 
 X1 == /\ pc = "X1"
       /\ stack' = << [ procedure |->  "parseExpr",
                        pc        |->  "X2" ] >>
                    \o stack
       /\ pc' = "E0"
-      /\ UNCHANGED << inp, toks, i, errs, nilp, closer >>
+      /\ UNCHANGED << inp, toks, i, errs, nilp, closer, kind >>
 
 X2 == /\ pc = "X2"
       /\ IF Tok(i + 1) = "RBRACES"
@@ -827,49 +911,235 @@ X2 == /\ pc = "X2"
             ELSE /\ TRUE
                  /\ i' = i
       /\ pc' = "X3"
-      /\ UNCHANGED << inp, toks, errs, nilp, stack, closer >>
+      /\ UNCHANGED << inp, toks, errs, nilp, stack, closer, kind >>
 
 X3 == /\ pc = "X3"
       /\ pc' = Head(stack).pc
       /\ stack' = Tail(stack)
+      /\ UNCHANGED << inp, toks, i, errs, nilp, closer, kind >>
+
+parseEmbedded == X0 \/ X0a \/ X0b \/ X0c \/ X0d \/ X1 \/ X2 \/ X3
+
+F0 == /\ pc = "F0"
+      /\ IF Tok(i + 1) # "LPAREN"
+            THEN /\ errs' = Append(errs, "expected (")
+                 /\ pc' = Head(stack).pc
+                 /\ stack' = Tail(stack)
+            ELSE /\ pc' = "F1"
+                 /\ UNCHANGED << errs, stack >>
+      /\ UNCHANGED << inp, toks, i, nilp, closer, kind >>
+
+F1 == /\ pc = "F1"
+      /\ i' = i + 1
+      /\ pc' = "F1a"
+      /\ UNCHANGED << inp, toks, errs, nilp, stack, closer, kind >>
+
+F1a == /\ pc = "F1a"
+       /\ IF Tok(i + 1) # "SEMI"
+             THEN /\ stack' = << [ procedure |->  "parseEmbedded",
+                                   pc        |->  "F2" ] >>
+                               \o stack
+                  /\ pc' = "X0"
+             ELSE /\ pc' = "F2"
+                  /\ stack' = stack
+       /\ UNCHANGED << inp, toks, i, errs, nilp, closer, kind >>
+
+F2 == /\ pc = "F2"
+      /\ IF Tok(i + 1) # "SEMI"
+            THEN /\ errs' = Append(errs, "expected ;")
+                 /\ pc' = Head(stack).pc
+                 /\ stack' = Tail(stack)
+            ELSE /\ pc' = "F3"
+                 /\ UNCHANGED << errs, stack >>
+      /\ UNCHANGED << inp, toks, i, nilp, closer, kind >>
+
+F3 == /\ pc = "F3"
+      /\ i' = i + 1
+      /\ pc' = "F3a"
+      /\ UNCHANGED << inp, toks, errs, nilp, stack, closer, kind >>
+
+F3a == /\ pc = "F3a"
+       /\ IF Tok(i + 1) # "SEMI"
+             THEN /\ i' = i + 1
+                  /\ stack' = << [ procedure |->  "parseExpr",
+                                   pc        |->  "F4" ] >>
+                               \o stack
+                  /\ pc' = "E0"
+             ELSE /\ pc' = "F4"
+                  /\ UNCHANGED << i, stack >>
+       /\ UNCHANGED << inp, toks, errs, nilp, closer, kind >>
+
+F4 == /\ pc = "F4"
+      /\ IF Tok(i + 1) # "SEMI"
+            THEN /\ errs' = Append(errs, "expected ;")
+                 /\ pc' = Head(stack).pc
+                 /\ stack' = Tail(stack)
+            ELSE /\ pc' = "F5"
+                 /\ UNCHANGED << errs, stack >>
+      /\ UNCHANGED << inp, toks, i, nilp, closer, kind >>
+
+F5 == /\ pc = "F5"
+      /\ i' = i + 1
+      /\ pc' = "F5a"
+      /\ UNCHANGED << inp, toks, errs, nilp, stack, closer, kind >>
+
+F5a == /\ pc = "F5a"
+       /\ IF Tok(i + 1) # "RPAREN"
+             THEN /\ stack' = << [ procedure |->  "parseEmbedded",
+                                   pc        |->  "F6" ] >>
+                               \o stack
+                  /\ pc' = "X0"
+             ELSE /\ pc' = "F6"
+                  /\ stack' = stack
+       /\ UNCHANGED << inp, toks, i, errs, nilp, closer, kind >>
+
+F6 == /\ pc = "F6"
+      /\ IF Tok(i + 1) # "RPAREN"
+            THEN /\ errs' = Append(errs, "expected )")
+                 /\ pc' = Head(stack).pc
+                 /\ stack' = Tail(stack)
+            ELSE /\ pc' = "F7"
+                 /\ UNCHANGED << errs, stack >>
+      /\ UNCHANGED << inp, toks, i, nilp, closer, kind >>
+
+F7 == /\ pc = "F7"
+      /\ i' = i + 2
+      /\ stack' = << [ procedure |->  "parseBlock",
+                       pc        |->  "F8" ] >>
+                   \o stack
+      /\ pc' = "B0"
+      /\ UNCHANGED << inp, toks, errs, nilp, closer, kind >>
+
+F8 == /\ pc = "F8"
+      /\ IF Tok(i + 1) = "ELSE"
+            THEN /\ i' = i + 2
+                 /\ stack' = << [ procedure |->  "parseBlock",
+                                  pc        |->  "F9" ] >>
+                              \o stack
+                 /\ pc' = "B0"
+            ELSE /\ pc' = "F9"
+                 /\ UNCHANGED << i, stack >>
+      /\ UNCHANGED << inp, toks, errs, nilp, closer, kind >>
+
+F9 == /\ pc = "F9"
+      /\ IF Tok(i + 1) = "END"
+            THEN /\ i' = i + 1
+                 /\ errs' = errs
+            ELSE /\ errs' = Append(errs, "expected @end")
+                 /\ i' = i
+      /\ pc' = "FA"
+      /\ UNCHANGED << inp, toks, nilp, stack, closer, kind >>
+
+FA == /\ pc = "FA"
+      /\ pc' = Head(stack).pc
+      /\ stack' = Tail(stack)
+      /\ UNCHANGED << inp, toks, i, errs, nilp, closer, kind >>
+
+parseFor == F0 \/ F1 \/ F1a \/ F2 \/ F3 \/ F3a \/ F4 \/ F5 \/ F5a \/ F6
+               \/ F7 \/ F8 \/ F9 \/ FA
+
+D0 == /\ pc = "D0"
+      /\ IF Tok(i + 1) # "LPAREN"
+            THEN /\ errs' = Append(errs, "expected (")
+                 /\ pc' = Head(stack).pc
+                 /\ kind' = Head(stack).kind
+                 /\ stack' = Tail(stack)
+            ELSE /\ pc' = "D1"
+                 /\ UNCHANGED << errs, stack, kind >>
+      /\ UNCHANGED << inp, toks, i, nilp, closer >>
+
+D1 == /\ pc = "D1"
+      /\ IF kind = "dump"
+            THEN /\ i' = i + 1
+                 /\ /\ closer' = "RPAREN"
+                    /\ stack' = << [ procedure |->  "parseList",
+                                     pc        |->  Head(stack).pc,
+                                     closer    |->  closer ] >>
+                                 \o Tail(stack)
+                 /\ pc' = "L0"
+            ELSE /\ IF kind = "cond"
+                       THEN /\ i' = i + 2
+                            /\ stack' = << [ procedure |->  "parseExpr",
+                                             pc        |->  Head(stack).pc ] >>
+                                         \o Tail(stack)
+                            /\ pc' = "E0"
+                       ELSE /\ i' = i + 2
+                            /\ pc' = "D2"
+                            /\ stack' = stack
+                 /\ UNCHANGED closer
+      /\ UNCHANGED << inp, toks, errs, nilp, kind >>
+
+D2 == /\ pc = "D2"
+      /\ pc' = Head(stack).pc
+      /\ kind' = Head(stack).kind
+      /\ stack' = Tail(stack)
       /\ UNCHANGED << inp, toks, i, errs, nilp, closer >>
 
-parseEmbedded == X0 \/ X1 \/ X2 \/ X3
+parseArgDirective == D0 \/ D1 \/ D2
 
 S0 == /\ pc = "S0"
-      /\ IF Tok(i) = "LBRACES"
+      /\ IF Tok(i) \in {"LBRACES", "SEMI"}
             THEN /\ stack' = << [ procedure |->  "parseEmbedded",
                                   pc        |->  "S1" ] >>
                               \o stack
                  /\ pc' = "X0"
-            ELSE /\ IF Tok(i) = "IF"
-                       THEN /\ stack' = << [ procedure |->  "parseIf",
+                 /\ kind' = kind
+            ELSE /\ IF Tok(i) = "FOR"
+                       THEN /\ stack' = << [ procedure |->  "parseFor",
                                              pc        |->  "S1" ] >>
                                          \o stack
-                            /\ pc' = "I0"
-                       ELSE /\ IF Tok(i) = "EACH"
-                                  THEN /\ stack' = << [ procedure |->  "parseEach",
-                                                        pc        |->  "S1" ] >>
-                                                    \o stack
-                                       /\ pc' = "C0"
-                                  ELSE /\ IF Tok(i) = "INSERT"
-                                             THEN /\ stack' = << [ procedure |->  "parseInsert",
-                                                                   pc        |->  "S1" ] >>
-                                                               \o stack
-                                                  /\ pc' = "N0"
-                                             ELSE /\ IF Tok(i) = "COMPONENT"
-                                                        THEN /\ stack' = << [ procedure |->  "parseComponent",
-                                                                              pc        |->  "S1" ] >>
-                                                                          \o stack
-                                                             /\ pc' = "M0"
-                                                        ELSE /\ pc' = "S1"
-                                                             /\ stack' = stack
+                            /\ pc' = "F0"
+                            /\ kind' = kind
+                       ELSE /\ IF Tok(i) \in {"BREAK_IF", "CONTINUE_IF"}
+                                  THEN /\ /\ kind' = "cond"
+                                          /\ stack' = << [ procedure |->  "parseArgDirective",
+                                                           pc        |->  "S1",
+                                                           kind      |->  kind ] >>
+                                                       \o stack
+                                       /\ pc' = "D0"
+                                  ELSE /\ IF Tok(i) \in {"USE", "RESERVE"}
+                                             THEN /\ /\ kind' = "name"
+                                                     /\ stack' = << [ procedure |->  "parseArgDirective",
+                                                                      pc        |->  "S1",
+                                                                      kind      |->  kind ] >>
+                                                                  \o stack
+                                                  /\ pc' = "D0"
+                                             ELSE /\ IF Tok(i) = "DUMP"
+                                                        THEN /\ /\ kind' = "dump"
+                                                                /\ stack' = << [ procedure |->  "parseArgDirective",
+                                                                                 pc        |->  "S1",
+                                                                                 kind      |->  kind ] >>
+                                                                             \o stack
+                                                             /\ pc' = "D0"
+                                                        ELSE /\ IF Tok(i) = "IF"
+                                                                   THEN /\ stack' = << [ procedure |->  "parseIf",
+                                                                                         pc        |->  "S1" ] >>
+                                                                                     \o stack
+                                                                        /\ pc' = "I0"
+                                                                   ELSE /\ IF Tok(i) = "EACH"
+                                                                              THEN /\ stack' = << [ procedure |->  "parseEach",
+                                                                                                    pc        |->  "S1" ] >>
+                                                                                                \o stack
+                                                                                   /\ pc' = "C0"
+                                                                              ELSE /\ IF Tok(i) = "INSERT"
+                                                                                         THEN /\ stack' = << [ procedure |->  "parseInsert",
+                                                                                                               pc        |->  "S1" ] >>
+                                                                                                           \o stack
+                                                                                              /\ pc' = "N0"
+                                                                                         ELSE /\ IF Tok(i) = "COMPONENT"
+                                                                                                    THEN /\ stack' = << [ procedure |->  "parseComponent",
+                                                                                                                          pc        |->  "S1" ] >>
+                                                                                                                      \o stack
+                                                                                                         /\ pc' = "M0"
+                                                                                                    ELSE /\ pc' = "S1"
+                                                                                                         /\ stack' = stack
+                                                             /\ kind' = kind
       /\ UNCHANGED << inp, toks, i, errs, nilp, closer >>
 
 S1 == /\ pc = "S1"
       /\ pc' = Head(stack).pc
       /\ stack' = Tail(stack)
-      /\ UNCHANGED << inp, toks, i, errs, nilp, closer >>
+      /\ UNCHANGED << inp, toks, i, errs, nilp, closer, kind >>
 
 parseStatement == S0 \/ S1
 
@@ -886,7 +1156,7 @@ P0 == /\ pc = "P0"
                             /\ errs' = errs
                  /\ pc' = "P3"
                  /\ stack' = stack
-      /\ UNCHANGED << inp, toks, i, nilp, closer >>
+      /\ UNCHANGED << inp, toks, i, nilp, closer, kind >>
 
 P1 == /\ pc = "P1"
       /\ IF Tok(i) = "ILLEGAL"
@@ -895,24 +1165,25 @@ P1 == /\ pc = "P1"
                  /\ pc' = "P3"
             ELSE /\ pc' = "P2"
                  /\ UNCHANGED << errs, nilp >>
-      /\ UNCHANGED << inp, toks, i, stack, closer >>
+      /\ UNCHANGED << inp, toks, i, stack, closer, kind >>
 
 P2 == /\ pc = "P2"
       /\ i' = i + 1
       /\ pc' = "P0"
-      /\ UNCHANGED << inp, toks, errs, nilp, stack, closer >>
+      /\ UNCHANGED << inp, toks, errs, nilp, stack, closer, kind >>
 
 P3 == /\ pc = "P3"
       /\ TRUE
       /\ pc' = "Done"
-      /\ UNCHANGED << inp, toks, i, errs, nilp, stack, closer >>
+      /\ UNCHANGED << inp, toks, i, errs, nilp, stack, closer, kind >>
 
 (* Allow infinite stuttering to prevent deadlock on termination. *)
 Terminating == pc = "Done" /\ UNCHANGED vars
 
 Next == parseExpr \/ parseList \/ parseObject \/ parseBlock \/ parseIf
            \/ parseEach \/ parseInsert \/ parseComponent \/ parseEmbedded
-           \/ parseStatement \/ P0 \/ P1 \/ P2 \/ P3
+           \/ parseFor \/ parseArgDirective \/ parseStatement \/ P0 \/ P1 \/ P2
+           \/ P3
            \/ Terminating
 
 Spec == /\ Init /\ [][Next]_vars
